@@ -130,7 +130,7 @@ theorem destDo_monF {G : Ctx} (hs : Src G) {s s' : PS} {r : Except Stop Batch} {
     obtain ⟨p, src, _, _, hlt, hsrc, hroot⟩ := active_src hb.wf hal hj
     exact ⟨p, src, hlt, hsrc, rfl, hroot, rfl⟩
   have hbase : Base G s' := by
-    refine ⟨htv, hB.sc.event (.write d b.active) d rfl hlog hscr, ?_, ?_, ?_, by rw [hscr]; exact hB.ns.pop d⟩
+    refine ⟨htv, hB.sc.event (.write d b.active) d rfl hlog hscr, ?_, ?_, ?_, fun hg => by rw [hscr]; exact (hB.ns hg).pop d⟩
     · intro e he
       rw [hwr, List.mem_append] at he
       rcases he with he | he
